@@ -125,6 +125,15 @@ def find_state(prog, m):
                 for t in (x.targets if isinstance(x, ast.Assign) else [x.target]):
                     if isinstance(t, ast.Name):
                         local_names.add(t.id)
+        # names that denote the CLASS inside a method: the classmethod parameter, and locals bound to self.__class__ / type(self)
+        class_aliases = set()
+        if fi.cls is not None:
+            if "cls" in fi.params[:1]:
+                class_aliases.add("cls")
+            for x in body_walk(node):
+                if isinstance(x, ast.Assign) and len(x.targets) == 1 and isinstance(x.targets[0], ast.Name) \
+                        and norm(x.value) in ("self.__class__", "type(self)"):
+                    class_aliases.add(x.targets[0].id)
         globals_declared = set()
         for x in body_walk(node):
             if isinstance(x, ast.Global):
@@ -169,9 +178,11 @@ def find_state(prog, m):
                         and fi.name not in ("__init__", "__new__", "__setattr__", "__setstate__"):
                     out.append((fi, "self." + t.attr, x, "instance attribute assigned outside the constructor"))
                 if isinstance(t, ast.Attribute) and isinstance(t.value, ast.Name) and (
-                        t.value.id in classnames or (t.value.id == "cls" and fi.cls is not None and "cls" in fi.params[:1])) \
+                        t.value.id in classnames or t.value.id in class_aliases) \
                         and fi.name not in ("__init_subclass__",):
-                    out.append((fi, norm(t), x, "class attribute assigned from a method"))
+                    out.append((fi, "%s.%s" % ("cls" if t.value.id in class_aliases else t.value.id, t.attr), x, "class attribute assigned from a method"))
+                if isinstance(t, ast.Attribute) and fi.cls is not None and norm(t.value) in ("self.__class__", "type(self)"):
+                    out.append((fi, "cls.%s" % t.attr, x, "class attribute assigned from a method"))
                 if isinstance(t, ast.Attribute) and isinstance(t.value, ast.Name) and t.value.id == fi.name and fi.cls is None:
                     out.append((fi, norm(t), x, "function attribute used as storage"))
             if isinstance(x, ast.Call) and isinstance(x.func, ast.Attribute) and x.func.attr in MUTATORS:
